@@ -161,3 +161,18 @@ Theorem C07_cleanup_remove_outputs_release_touches_only_input : forall ns tin to
   st_get (ns, tout, id) st' = st_get (ns, tout, id) st.
 Proof. exact ro_release_touches_only_input. Qed.
 Print Assumptions C07_cleanup_remove_outputs_release_touches_only_input.
+
+(* what the RemoveOutputs flavour may write, in every state (hence on every schedule): a worker step changes at most one
+   key - the input itself or the dependent being handled, which the listing showed as unowned - and a dependent
+   disappears only through a Destroy that the store grants for an unowned resource without finalizers *)
+Theorem C07_cleanup_remove_outputs_touches_one_key : forall ns tin tout cname lkey now x s k',
+  key_eqb k' (ro_target ns tin tout x (rs_pc s)) = false ->
+  st_get k' (rs_store (ro_step ns tin tout cname lkey x s (RStep now))) = st_get k' (rs_store s).
+Proof. exact ro_step_touches_one_key. Qed.
+Print Assumptions C07_cleanup_remove_outputs_touches_one_key.
+
+Theorem C07_cleanup_remove_outputs_destroys_only_unowned_without_finalizers : forall ns tin tout cname now id s s',
+  a_apply now (rctrl ns tin tout cname) (ADestroy (ns, tout, id) (Some 0)) s = (s', AOk) ->
+  exists cur, st_get (ns, tout, id) s = Some cur /\ r_owner cur = 0 /\ r_fins cur = [].
+Proof. exact ro_destroy_only_unowned_without_finalizers. Qed.
+Print Assumptions C07_cleanup_remove_outputs_destroys_only_unowned_without_finalizers.
